@@ -75,6 +75,7 @@ def run(ctx):
             ctx.sample({'case': case, 'rex': rexes})
     M.compare_with_model(ctx, cases)
     M.check_oracle_hypotheses(ctx, cases)
+    M.check_regex_model(ctx, cases)
     # other entry points: extract() and pdextract (pandas columns)
     import pandas as pd
     for it in range(60 if ctx.quick else 2000):
